@@ -39,6 +39,9 @@ THEOREMS = [
     "Optyx.Props.StateTie.subjectToBad_eq",
     "Optyx.Props.StateTie.getIsLinear_eq",
     "Optyx.Props.StateTie.readers_text",
+    "Optyx.Props.StateTie.edit_clears_caches_of_source_equations",
+    "Optyx.Props.StateTie.edit_model_of_source_equations",
+    "Optyx.Props.StateTie.rejected_list_changes_nothing_of_source_equations",
     "Optyx.Props.VarsTie.svsVisit_eq",
     "Optyx.Props.VarsTie.svsFrame_text",
     "Optyx.Props.PinsC13.anchors",
